@@ -9,6 +9,7 @@ import Gallia.Model.UdsClientApi
     sig <method>        ->  one `name|default|type` per parameter (default: `req`, `bool:0`, `bytes:-`, `int:0`, `none`)
     call <method> <args…> ->  `err` | `ok <pdu hex> <request>`   (`denote`; `_` = argument left out, `none` = Python None,
                             `s:<int>` scalar for an int-or-sequence parameter, `h:<hex>` bytes for a bytes-or-int parameter)
+    ctor <method>       ->  `<class> <ctor parameter>=<method parameter> …` of the construction site of the method (`-` = none)
     xmit <hex> <block_length> <max_block_length|_>  ->  `err` | the PDUs of ECU.transmit_data, comma separated
     seq leave_session   ->  the PDUs of ECU.leave_session (all replies positive), comma separated
   request / args text: tokens separated by blanks; bytes as hex (`-` = empty); integer lists `a,b,c` (`-` = empty);
@@ -215,6 +216,16 @@ def showSig (m : Method) : String :=
       | none => "?"
     if items.isEmpty then "-" else " ".intercalate items
 
+def clsName (c : Cls) : String := lastComponent (toString (repr c))
+
+def showCtor (m : Method) : String :=
+  match ctorSites.find? (fun s => s.fn = m) with
+  | none => "-"
+  | some site =>
+    let items := site.args.map fun a =>
+      s!"{paramName a.1}={match a.2 with | .param p => paramName p | .const v => "const:" ++ showVal v | .expr _ => "expr"}"
+    " ".intercalate (clsName site.cls :: items)
+
 def showPdus (rs : List (Except Refusal Bytes)) : String :=
   if rs.any (fun r => match r with | .error _ => true | .ok _ => false) then "err"
   else ",".intercalate (rs.map fun r => match r with | .ok b => hexOrDash b | .error _ => "err")
@@ -241,6 +252,10 @@ def step (line : String) : String :=
   | ["sig", m] =>
     match findMethod m with
     | some m => showSig m
+    | none => "unknown-method"
+  | ["ctor", m] =>
+    match findMethod m with
+    | some m => showCtor m
     | none => "unknown-method"
   | "call" :: rest =>
     match parseCall rest with
